@@ -10,6 +10,8 @@ pub mod runtime;
 pub mod scheduler;
 pub mod sync_types;
 pub mod thread_support;
+#[cfg(feature = "verif-hooks")]
+pub mod verif_support;
 
 pub use config::{
     Config, ContinuationFunctionBehavior, FailurePersistence, MaxSteps, UngracefulShutdownConfig,
